@@ -32,10 +32,29 @@ class PipeTiming(c02.Pipe):
         return "stalled" in classes or "flushed" in classes
 
 
-def check_schedule(spec):
+def spec_tie(spec, tr, W, model):
+    """the recurrence the THEOREM pipe_schedule is stated against (Proofs/SchedDefs.v, evaluated by the extracted
+    model on the model's single-cycle instruction stream) must be the recurrence this check uses (sched.schedule on the
+    implementation's single-cycle trace); and the model pipeline must retire accordingly"""
+    r = model.call([80, spec, len(tr) + 1])
+    want = [[i["addr"], w] for i, w in zip(tr, W)]
+    if r[2] != 0:
+        return f"model single-cycle run does not finish (code {r[2]}) where the implementation's does"
+    if [list(x) for x in r[0]] != want:
+        return f"Coq schedule on the model's instruction stream {str(r[0])[:160]} != reference recurrence on the implementation's trace {str(want)[:160]}"
+    if [list(x) for x in r[1]] != want:
+        return f"model pipeline retires {str(r[1])[:160]}, schedule says {str(want)[:160]}"
+    return None
+
+
+def check_schedule(spec, model=None):
     tr = sched.single_dynamic_trace(spec)
     if tr is None:
         return None, {"skipped"}
+    if model is not None:
+        d = spec_tie(spec, tr, sched.schedule(tr), model)
+        if d:
+            return ("disagreement", d), {"tie"}
     r = sched.pipe_retire(spec, True)
     if r is None:
         return "single-cycle run finishes but the five-stage run faults or does not finish", set()
@@ -69,7 +88,9 @@ class Schedule(Slice):
         return {"spec": gen_rv.gen_state_spec(rng, prog), "steps": 400}
 
     def run(self, case, model):
-        d, cl = check_schedule(case["spec"])
+        d, cl = check_schedule(case["spec"], model)
+        if isinstance(d, tuple):
+            return [d], cl
         return ([("violation", d)] if d else []), cl
 
     def nontrivial(self, classes):
